@@ -2,6 +2,7 @@ import AthlibVerif.Drv.Regex
 import AthlibVerif.Drv.Athlon
 import AthlibVerif.Drv.HJ
 import AthlibVerif.Drv.Cache
+import AthlibVerif.Drv.Uka
 /-!
 Line-protocol driver: one request per line (`area<TAB>cmd<TAB>arg…`), one reply per line.
 Imports only the import-free models and the generated data, so it also links as `lean_exe`.
@@ -16,6 +17,7 @@ def handle (st : DrvState) (line : String) : DrvState × String :=
   | "rx" :: rest => (st, handleRegex rest)
   | "ath" :: rest => (st, handleAthlon rest)
   | "cache" :: rest => (st, handleCache rest)
+  | "uka" :: rest => (st, handleUka rest)
   | "hj" :: rest => let (c, out) := handleHJ st.hj rest; ({ st with hj := c }, out)
   | _ => (st, "bad-area")
 
